@@ -30,6 +30,13 @@ def refinement(*conditions: Union[SymbolicExpression[T], bool, Predicate]) -> Sy
     new_conditions_root = ExceptIf(SymbolicExpression._current_parent_(), new_branch)
     new_branch._node_.weight = RDREdge.Refinement
     new_conditions_root._parent_ = prev_parent
+    if isinstance(prev_parent, BinaryOperator):
+        # the refined branch is itself an operand of a refinement or an alternative: that operator has to evaluate
+        # the refined branch from now on (as alternative_or_next does for its operand).
+        if prev_parent.left is current_node:
+            prev_parent.left = new_conditions_root
+        else:
+            prev_parent.right = new_conditions_root
     return new_conditions_root.right
 
 
